@@ -1,5 +1,6 @@
 import DriverVSA.SIOps
 import DriverVSA.SetOps
+import DriverVSA.ExprOps
 /-! Line-protocol driver for the VSA family: one request per line, first token selects the handler.
 Imports only core-Lean model files under Claripy/ (never Mathlib), so it links as an executable. -/
 
@@ -7,6 +8,7 @@ def dispatch (line : String) : String :=
   match (line.trimAscii.toString.splitOn " ").filter (· ≠ "") with
   | "si" :: args => DriverVSA.handleSI args
   | "ds" :: args => DriverVSA.handleDS args
+  | "ex" :: args => DriverVSA.handleEx args
   | _ => "bad-op"
 
 partial def loop (h : IO.FS.Stream) (out : IO.FS.Stream) : IO Unit := do
